@@ -145,7 +145,7 @@ def specs(rng, tier, wid, nw, env):
         if nn <= 3500 or tier != 'quick':
             yield ('mpz', nn, dn, c, rng.randint(0, 3), rng.getrandbits(48))
             yield ('exact', nn, dn, c, rng.randint(0, 3), rng.getrandbits(48))
-    N = 2500 if tier == 'quick' else 80000
+    N = 4000 if tier == 'quick' else 400000
     for i in range(N):
         c = rng.random()
         if c < 0.25:
